@@ -98,6 +98,7 @@ def jobs(tier, seed):
                     k = (seed + si * 5 + pi * 3 + n) % 12
                     n += 1
                     o = C04._opts(shape, k)
+                    o["media"] = bool(o["media"])          # half numberings are refused (C04): they would leave the job without a written tree
                     o["arch"] = arch
                     if arch in o["images"] or not o["images"]:
                         pass
@@ -116,6 +117,7 @@ def jobs(tier, seed):
         for ri, rm in enumerate(tops[::-1] + kids[:1]):
             for mv in ([None, tops[0]] if big else [None]):
                 o = C04._opts(shape, (seed + si + ri) % 12)
+                o["media"] = bool(o["media"])
                 if o["arch"] not in o["images"]:
                     o["images"] = {}
                 for u in tops + kids:
@@ -128,6 +130,7 @@ def jobs(tier, seed):
         for fi, fm in enumerate(tops[::-1] + kids[:1]):
             for mv in ([None, tops[0]] if big else [None]):
                 o = C04._opts(shape, (seed + si + fi + 3) % 12)
+                o["media"] = bool(o["media"])
                 if o["arch"] not in o["images"]:
                     o["images"] = {}
                 for u in tops + kids:
@@ -137,6 +140,7 @@ def jobs(tier, seed):
     for si, shape in enumerate(("single", "two-top")):
         for arch in ("x86_64", "src"):
             o = C04._opts(shape, 0)
+            o["media"] = bool(o["media"])
             o["arch"] = arch
             o["platforms"] = ["xen", "ppc64le"]
             o["images"] = {arch: ["boot.iso"]} if arch != "src" else {"xen": ["kernel"]}
